@@ -201,7 +201,7 @@ def correspondence(ctx):
     reqs.append("c05const")
     meta.append(("const", [K.G, K.Earth.mass, K.Earth.mu, K.Earth.r, K.Earth.J2], None, None))
     out.count(key="c05const", kind="constants")
-    N = ctx.n(1500, 60000)
+    N = ctx.n(4000, 60000)
     for k in range(N):
         prop = "Kepler" if k % 2 == 0 else "J2"
         conic = "ell" if (rng.random() < 0.55 or (prop == "J2" and rng.random() < 0.8)) else "hyp"
@@ -372,8 +372,6 @@ def nonfinite_family(prop, elts0, mu, dt):
 
 
 def oracle(ctx, widened):
-    import numpy as np
-    from beyond.dates import timedelta
     from beyond import constants as K
     out = Outcome()
     rng = ctx.rng
@@ -384,86 +382,92 @@ def oracle(ctx, widened):
         if not abs(val / ref - 1) < 1e-5:
             out.fail("constants-" + name, f"Earth.{name} is not the reference value", name, observed=val, expected=ref)
     with _quiet():
-        _oracle_kepler(out, rng, 1500 if big else 150)
-        _oracle_j2(out, rng, 1500 if big else 150)
+        for _ in range(3000 if big else 300):
+            kepler_case(out, gen_kepler_input(rng))
+        for _ in range(3000 if big else 300):
+            j2_case(out, gen_j2_input(rng))
     out.sample({"checks": "kepler: elements constant, M advance, compose, inverse, periodic, universal-variable; j2: a e i constant, secular rates, polar, critical, sso, compose"})
     return out
 
 
-def _oracle_kepler(out, rng, N):
+def gen_kepler_input(rng):
+    conic = "ell" if rng.random() < 0.55 else "hyp"
+    elts = gen_elts(rng, conic)
+    dt = gen_dt(rng)
+    t1 = q(rng.uniform(-1, 1) * abs(dt)) if rng.random() < 0.7 else q(rng.uniform(-30, 30) * DAY)
+    return {"propagator": "Kepler", "form": rng.choice(ELL_FORMS if conic == "ell" else HYP_FORMS), "frame": rng.choice(FRAMES),
+            "mean_elements": elts, "dt": dt, "t1": t1, "t2": q(dt - t1), "periods": rng.choice([1, 1, 2, 5, -1, -3])}
+
+
+def kepler_case(out, inp):
+    """every Kepler clause of the property on one fully specified input (also used by replay)"""
     from beyond.dates import timedelta
-    for k in range(N):
-        conic = "ell" if rng.random() < 0.55 else "hyp"
-        elts = gen_elts(rng, conic)
-        form = rng.choice(ELL_FORMS if conic == "ell" else HYP_FORMS)
-        frame = rng.choice(FRAMES)
-        dt = gen_dt(rng)
-        orb, d0 = make(elts, form, frame, "Kepler")
-        mu = float(orb.frame.center.body.mu)
-        inp = {"propagator": "Kepler", "form": form, "frame": frame, "mean_elements": elts, "dt": dt}
-        x0 = mean_of(orb)
-        c0 = [float(v) for v in orb.copy(form="cartesian")]
-        n = mean_motion(mu, elts[0])
-        res = orb.propagate(timedelta(seconds=dt))
-        c1 = [float(v) for v in res]
-        out.count(key=("kepler", form, tuple(elts), dt), nontrivial=dt != 0, kind=f"kepler-{conic}", form=form)
-        if not finite(c1) or not finite(x0):
-            out.fail(nonfinite_family("Kepler", x0, mu, dt), "Kepler.propagate returns a non-finite state inside the property's domain", inp, observed=c1)
-            continue
-        amp = 1 + n * abs(dt)
-        e = elts[1]
-        # 1. a, e, i, Ω, ω unchanged, M advanced by n dt
-        x1 = mean_of(res)
-        cond = 1 / min(e, abs(e - 1), 1.0)
-        tol = 1e-11 * amp
-        bad = None
-        if abs(x1[0] / x0[0] - 1) > tol * cond: bad = "a"
-        elif abs(x1[1] - x0[1]) > tol * max(1, e) * cond: bad = "e"
-        elif abs(x1[2] - x0[2]) > tol / math.sin(x0[2]): bad = "i"
-        elif angdiff(x1[3], x0[3]) > tol / math.sin(x0[2]): bad = "raan"
-        elif angdiff(x1[4], x0[4]) > tol * cond / min(e, 1.0): bad = "argp"
-        if bad:
-            out.fail(f"kepler-element-{bad}-{conic}", f"Kepler propagation changes {bad}", inp, observed=x1, expected=x0)
-        Mexp = x0[5] + n * dt
-        dM = angdiff(x1[5], Mexp) if conic == "ell" else abs(x1[5] - Mexp)
-        if dM > tol * cond / min(e, 1.0) * max(1.0, abs(Mexp) if conic == "hyp" else 1.0):
-            out.fail(f"kepler-M-advance-{conic}", "mean anomaly does not advance by n dt", inp, observed=x1[5], expected=Mexp)
-        # 2. independent universal-variable solution, forwards and backwards
-        ref = universal_kepler(mu, c0[:3], c0[3:], dt)
-        out.count(key=("uv", form, tuple(elts), dt), nontrivial=dt != 0, kind=f"universal-variable-{conic}-{'back' if dt < 0 else 'fwd'}")
-        if not rel_err(c1, ref) <= min(1e-5, 1e-9 + 1e-10 * amp):
-            out.fail(f"kepler-universal-variable-{conic}", "Kepler.propagate differs from the universal-variable two-body solution by more than 1e-5", inp,
-                     observed=c1, expected=ref)
-        # 3. composition and inverse
-        t1 = q(rng.uniform(-1, 1) * abs(dt)) if rng.random() < 0.7 else q(rng.uniform(-30, 30) * DAY)
-        t2 = q(dt - t1)
-        if abs(t2) <= 30 * DAY:
-            mid = orb.propagate(timedelta(seconds=t1))
-            two = [float(v) for v in mid.propagate(timedelta(seconds=t2))]
-            amp2 = 1 + n * (abs(t1) + abs(t2))
-            out.count(key=("compose", form, tuple(elts), t1, t2), kind=f"compose-{conic}")
-            if not finite(two):
-                xm = mean_of(mid) if finite(mid) else x0
-                out.fail(nonfinite_family("Kepler", x0, mu, t1) if not finite(mid) else nonfinite_family("Kepler", xm, mu, t2),
-                         "Kepler.propagate returns a non-finite state inside the property's domain (composition leg)", dict(inp, t1=t1, t2=t2), observed=two)
-            elif not rel_err(two, c1) <= 3e-9 * amp2 * cond:
-                out.fail(f"kepler-compose-{conic}", "propagate(t1) then propagate(t2) differs from propagate(t1+t2)", dict(inp, t1=t1, t2=t2), observed=two, expected=c1)
-        back = [float(v) for v in res.propagate(timedelta(seconds=-dt))]
-        out.count(key=("inverse", form, tuple(elts), dt), nontrivial=dt != 0, kind=f"inverse-{conic}")
-        if not finite(back):
-            out.fail(nonfinite_family("Kepler", x1, mu, -dt), "Kepler.propagate returns a non-finite state inside the property's domain (way back)", inp, observed=back)
-        elif not rel_err(back, c0) <= 3e-9 * amp * cond:
-            out.fail(f"kepler-inverse-{conic}", "propagate(-t) after propagate(t) does not return to the initial state", inp, observed=back, expected=c0)
-        # 4. periodicity of bound orbits
-        if conic == "ell":
-            period = orb.infos.period
-            kk = rng.choice([1, 1, 2, 5, -1, -3])
-            if abs(period.total_seconds() * kk) <= 30 * DAY:
-                per = [float(v) for v in orb.propagate(period * kk)]
-                out.count(key=("periodic", form, tuple(elts), kk), kind="periodic")
-                # the period is rounded to the microsecond by timedelta: allow v * 0.5 µs * k
-                if not rel_err(per, c0) <= 1e-8 * (1 + TWO_PI * abs(kk)) * cond + abs(kk) * 1e-6 * n * 10 / (1 - e) ** 2:
-                    out.fail("kepler-periodic", f"state after {kk} period(s) differs from the initial state", dict(inp, periods=kk), observed=per, expected=c0)
+    elts, form, frame, dt = inp["mean_elements"], inp["form"], inp["frame"], inp["dt"]
+    conic = "ell" if elts[1] < 1 else "hyp"
+    orb, d0 = make(elts, form, frame, "Kepler")
+    mu = float(orb.frame.center.body.mu)
+    x0 = mean_of(orb)
+    c0 = [float(v) for v in orb.copy(form="cartesian")]
+    n = mean_motion(mu, elts[0])
+    res = orb.propagate(timedelta(seconds=dt))
+    c1 = [float(v) for v in res]
+    out.count(key=("kepler", form, tuple(elts), dt), nontrivial=dt != 0, kind=f"kepler-{conic}", form=form)
+    if not finite(c1) or not finite(x0):
+        out.fail(nonfinite_family("Kepler", x0, mu, dt), "Kepler.propagate returns a non-finite state inside the property's domain", inp, observed=c1)
+        return
+    amp = 1 + n * abs(dt)
+    e = elts[1]
+    # 1. a, e, i, Ω, ω unchanged, M advanced by n dt (tolerances: 1e-11 relative, amplified by the phase n|dt| and by the
+    #    conditioning of the element set near e = 0, e = 1, sin i = 0; observed errors are 1e3..1e6 times smaller)
+    x1 = mean_of(res)
+    cond = 1 / min(e, abs(e - 1), 1.0)
+    tol = 1e-11 * amp
+    bad = None
+    if abs(x1[0] / x0[0] - 1) > tol * cond: bad = "a"
+    elif abs(x1[1] - x0[1]) > tol * max(1, e) * cond: bad = "e"
+    elif abs(x1[2] - x0[2]) > tol / math.sin(x0[2]): bad = "i"
+    elif angdiff(x1[3], x0[3]) > tol / math.sin(x0[2]): bad = "raan"
+    elif angdiff(x1[4], x0[4]) > tol * cond / min(e, 1.0): bad = "argp"
+    if bad:
+        out.fail(f"kepler-element-{bad}-{conic}", f"Kepler propagation changes {bad}", inp, observed=x1, expected=x0)
+    Mexp = x0[5] + n * dt
+    dM = angdiff(x1[5], Mexp) if conic == "ell" else abs(x1[5] - Mexp)
+    if dM > tol * cond / min(e, 1.0) * max(1.0, abs(Mexp) if conic == "hyp" else 1.0):
+        out.fail(f"kepler-M-advance-{conic}", "mean anomaly does not advance by n dt", inp, observed=x1[5], expected=Mexp)
+    # 2. independent universal-variable solution, forwards and backwards (property: 1e-5; used: 1e-9 + 1e-10 n|dt|, capped at 1e-5)
+    ref = universal_kepler(mu, c0[:3], c0[3:], dt)
+    out.count(key=("uv", form, tuple(elts), dt), nontrivial=dt != 0, kind=f"universal-variable-{conic}-{'back' if dt < 0 else 'fwd'}")
+    if not rel_err(c1, ref) <= min(1e-5, 1e-9 + 1e-10 * amp):
+        out.fail(f"kepler-universal-variable-{conic}", "Kepler.propagate differs from the universal-variable two-body solution", inp,
+                 observed=c1, expected=ref)
+    # 3. composition and inverse
+    t1, t2 = inp["t1"], inp["t2"]
+    if abs(t2) <= 30 * DAY and abs(t1) <= 30 * DAY:
+        mid = orb.propagate(timedelta(seconds=t1))
+        two = [float(v) for v in mid.propagate(timedelta(seconds=t2))]
+        amp2 = 1 + n * (abs(t1) + abs(t2))
+        out.count(key=("compose", form, tuple(elts), t1, t2), kind=f"compose-{conic}")
+        if not finite(two):
+            fam = nonfinite_family("Kepler", x0, mu, t1) if not finite(mid) else nonfinite_family("Kepler", mean_of(mid), mu, t2)
+            out.fail(fam, "Kepler.propagate returns a non-finite state inside the property's domain (composition leg)", inp, observed=two)
+        elif not rel_err(two, c1) <= 3e-9 * amp2 * cond:
+            out.fail(f"kepler-compose-{conic}", "propagate(t1) then propagate(t2) differs from propagate(t1+t2)", inp, observed=two, expected=c1)
+    back = [float(v) for v in res.propagate(timedelta(seconds=-dt))]
+    out.count(key=("inverse", form, tuple(elts), dt), nontrivial=dt != 0, kind=f"inverse-{conic}")
+    if not finite(back):
+        out.fail(nonfinite_family("Kepler", x1, mu, -dt), "Kepler.propagate returns a non-finite state inside the property's domain (way back)", inp, observed=back)
+    elif not rel_err(back, c0) <= 3e-9 * amp * cond:
+        out.fail(f"kepler-inverse-{conic}", "propagate(-t) after propagate(t) does not return to the initial state", inp, observed=back, expected=c0)
+    # 4. periodicity of bound orbits
+    if conic == "ell":
+        period = orb.infos.period
+        kk = inp["periods"]
+        if abs(period.total_seconds() * kk) <= 30 * DAY:
+            per = [float(v) for v in orb.propagate(period * kk)]
+            out.count(key=("periodic", form, tuple(elts), kk), kind="periodic")
+            # the period is rounded to the microsecond by timedelta: allow the motion during k µs at perigee speed
+            if not rel_err(per, c0) <= 3e-9 * (1 + TWO_PI * abs(kk)) * cond + abs(kk) * 1e-6 * n * 10 / (1 - e) ** 2:
+                out.fail("kepler-periodic", f"state after {kk} period(s) differs from the initial state", inp, observed=per, expected=c0)
 
 
 def j2_rates(mu, a, e, i):
@@ -477,88 +481,84 @@ def j2_rates(mu, a, e, i):
             n + 0.75 * k * math.sqrt(1 - e * e) * (3 * math.cos(i) ** 2 - 1))
 
 
-def _oracle_j2(out, rng, N):
+CRIT = math.asin(math.sqrt(0.8))
+
+
+def gen_j2_input(rng):
+    elts = gen_elts(rng, "ell")
+    special = None
+    u = rng.random()
+    if u < 0.12:
+        special, elts[2] = "polar", math.pi / 2
+    elif u < 0.24:
+        special, elts[2] = "critical", rng.choice([CRIT, math.pi - CRIT])
+    elif u < 0.36:
+        # sun-synchronous: the inclination is taken from the library's own helper in j2_case
+        e = rng.uniform(1e-4, 0.05)
+        elts[0], elts[1] = rng.uniform(6.8e6, 7.6e6) / (1 - e), e
+        special, elts[2] = "sso", None
+    dt = gen_dt(rng)
+    t1 = q(rng.uniform(-1, 1) * abs(dt))
+    return {"propagator": "J2", "form": rng.choice(ELL_FORMS), "frame": rng.choice(FRAMES), "mean_elements": elts, "dt": dt,
+            "special": special, "t1": t1, "t2": q(dt - t1)}
+
+
+def j2_case(out, inp):
+    """every J2 clause of the property on one fully specified input (also used by replay)"""
     from beyond.dates import timedelta
     from beyond.utils.leo import sso
-    crit = math.asin(math.sqrt(0.8))
-    for k in range(N):
-        elts = gen_elts(rng, "ell")
-        special = None
-        u = rng.random()
-        if u < 0.12:
-            special, elts[2] = "polar", math.pi / 2
-        elif u < 0.24:
-            special, elts[2] = "critical", rng.choice([crit, math.pi - crit])
-        elif u < 0.36:
-            # sun-synchronous: inclination from the library's own helper
-            e = rng.uniform(1e-4, 0.05)
-            a = rng.uniform(6.8e6, 7.6e6) / (1 - e)
-            elts[0], elts[1] = a, e
-            special, elts[2] = "sso", float(sso(a=a, e=e))
-        form = rng.choice(ELL_FORMS)
-        frame = rng.choice(FRAMES)
-        dt = gen_dt(rng)
-        orb, d0 = make(elts, form, frame, "J2")
-        mu = float(orb.frame.center.body.mu)
-        inp = {"propagator": "J2", "form": form, "frame": frame, "mean_elements": elts, "dt": dt, "special": special}
-        x0 = mean_of(orb)
-        res = orb.propagate(timedelta(seconds=dt))
-        c1 = [float(v) for v in res]
-        out.count(key=("j2", form, tuple(elts), dt), nontrivial=dt != 0, kind=f"j2-{special or 'generic'}", form=form)
-        if not finite(c1) or not finite(x0):
-            out.fail(nonfinite_family("J2", x0, mu, dt), "J2.propagate returns a non-finite state inside the property's domain", inp, observed=c1)
-            continue
-        a, e, i = elts[:3]
-        n = mean_motion(mu, a)
-        amp = 1 + n * abs(dt)
-        cond = 1 / min(e, 1 - e)
-        tol = 1e-9 * amp
-        x1 = mean_of(res)
-        rO, rw, rM = j2_rates(mu, a, e, i)
-        bad = None
-        if abs(x1[0] / x0[0] - 1) > tol * cond: bad = ("a", x1[0], x0[0])
-        elif abs(x1[1] - x0[1]) > tol * cond: bad = ("e", x1[1], x0[1])
-        elif abs(x1[2] - x0[2]) > tol / math.sin(i): bad = ("i", x1[2], x0[2])
-        elif angdiff(x1[3], x0[3] + rO * dt) > tol / math.sin(i): bad = ("raan-rate", x1[3], (x0[3] + rO * dt) % TWO_PI)
-        elif angdiff(x1[4], x0[4] + rw * dt) > tol * cond / e: bad = ("argp-rate", x1[4], (x0[4] + rw * dt) % TWO_PI)
-        elif angdiff(x1[5], x0[5] + rM * dt) > tol * cond / e: bad = ("M-rate", x1[5], (x0[5] + rM * dt) % TWO_PI)
-        if bad:
-            out.fail(f"j2-{bad[0]}", f"J2 propagation: {bad[0]} is not constant / does not drift at the first-order secular rate", inp, observed=bad[1], expected=bad[2])
-        if special == "polar" and angdiff(x1[3], x0[3]) > tol:
-            out.fail("j2-polar-node-drift", "node drifts on a polar orbit", inp, observed=x1[3], expected=x0[3])
-        if special == "critical" and angdiff(x1[4], x0[4]) > tol * cond / e + 1e-12 * n * abs(dt):
-            out.fail("j2-critical-perigee-drift", "perigee drifts at the critical inclination", inp, observed=x1[4], expected=x0[4])
-        if special == "sso":
-            we = TWO_PI / 365.256363004 / 86400
-            out.count(key=("sso", a, e), kind="sso-node-rate")
-            if angdiff(x1[3], x0[3] + we * dt) > tol / math.sin(i) + 1e-9 * we * abs(dt):
-                out.fail("j2-sso-node-rate", "node of the orbit returned by leo.sso does not follow the mean Sun under J2", inp, observed=x1[3], expected=(x0[3] + we * dt) % TWO_PI)
-        # composition modulo 2π (cartesian level)
-        t1 = q(rng.uniform(-1, 1) * abs(dt))
-        t2 = q(dt - t1)
-        two = [float(v) for v in orb.propagate(timedelta(seconds=t1)).propagate(timedelta(seconds=t2))]
-        out.count(key=("j2-compose", form, tuple(elts), t1, t2), kind="j2-compose")
-        if not finite(two) or not rel_err(two, c1) <= 1e-8 * (1 + n * (abs(t1) + abs(t2))) * cond:
-            out.fail("j2-compose", "J2: propagate(t1) then propagate(t2) differs from propagate(t1+t2)", dict(inp, t1=t1, t2=t2), observed=two, expected=c1)
+    elts, form, frame, dt, special = list(inp["mean_elements"]), inp["form"], inp["frame"], inp["dt"], inp.get("special")
+    if special == "sso":
+        elts[2] = float(sso(a=elts[0], e=elts[1]))
+        inp = dict(inp, mean_elements=elts)
+    orb, d0 = make(elts, form, frame, "J2")
+    mu = float(orb.frame.center.body.mu)
+    x0 = mean_of(orb)
+    res = orb.propagate(timedelta(seconds=dt))
+    c1 = [float(v) for v in res]
+    out.count(key=("j2", form, tuple(elts), dt), nontrivial=dt != 0, kind=f"j2-{special or 'generic'}", form=form)
+    if not finite(c1) or not finite(x0):
+        out.fail(nonfinite_family("J2", x0, mu, dt), "J2.propagate returns a non-finite state inside the property's domain", inp, observed=c1)
+        return
+    a, e, i = elts[:3]
+    n = mean_motion(mu, a)
+    amp = 1 + n * abs(dt)
+    cond = 1 / min(e, 1 - e)
+    tol = 1e-11 * amp
+    x1 = mean_of(res)
+    rO, rw, rM = j2_rates(mu, a, e, i)
+    bad = None
+    if abs(x1[0] / x0[0] - 1) > tol * cond: bad = ("a", x1[0], x0[0])
+    elif abs(x1[1] - x0[1]) > tol * cond: bad = ("e", x1[1], x0[1])
+    elif abs(x1[2] - x0[2]) > tol / math.sin(i): bad = ("i", x1[2], x0[2])
+    elif angdiff(x1[3], x0[3] + rO * dt) > tol / math.sin(i): bad = ("raan-rate", x1[3], (x0[3] + rO * dt) % TWO_PI)
+    elif angdiff(x1[4], x0[4] + rw * dt) > tol * cond / e: bad = ("argp-rate", x1[4], (x0[4] + rw * dt) % TWO_PI)
+    elif angdiff(x1[5], x0[5] + rM * dt) > tol * cond / e: bad = ("M-rate", x1[5], (x0[5] + rM * dt) % TWO_PI)
+    if bad:
+        out.fail(f"j2-{bad[0]}", f"J2 propagation: {bad[0]} is not constant / does not drift at the first-order secular rate", inp, observed=bad[1], expected=bad[2])
+    if special == "polar" and angdiff(x1[3], x0[3]) > tol:
+        out.fail("j2-polar-node-drift", "node drifts on a polar orbit", inp, observed=x1[3], expected=x0[3])
+    if special == "critical" and angdiff(x1[4], x0[4]) > tol * cond / e + 1e-12 * n * abs(dt):
+        out.fail("j2-critical-perigee-drift", "perigee drifts at the critical inclination", inp, observed=x1[4], expected=x0[4])
+    if special == "sso":
+        we = TWO_PI / 365.256363004 / 86400
+        out.count(key=("sso", a, e), kind="sso-node-rate")
+        if angdiff(x1[3], x0[3] + we * dt) > tol / math.sin(i) + 1e-9 * we * abs(dt):
+            out.fail("j2-sso-node-rate", "node of the orbit returned by leo.sso does not follow the mean Sun under J2", inp, observed=x1[3], expected=(x0[3] + we * dt) % TWO_PI)
+    # composition (cartesian level)
+    t1, t2 = inp["t1"], inp["t2"]
+    two = [float(v) for v in orb.propagate(timedelta(seconds=t1)).propagate(timedelta(seconds=t2))]
+    out.count(key=("j2-compose", form, tuple(elts), t1, t2), kind="j2-compose")
+    if not finite(two) or not rel_err(two, c1) <= 3e-9 * (1 + n * (abs(t1) + abs(t2))) * cond:
+        out.fail("j2-compose", "J2: propagate(t1) then propagate(t2) differs from propagate(t1+t2)", inp, observed=two, expected=c1)
 
 
 def replay(f):
-    """re-evaluate the recorded failing input on the real API (Kepler / J2 propagate and the universal-variable reference)"""
+    """re-evaluate every clause on the recorded failing input against the real API"""
     out = Outcome()
-    from beyond.dates import timedelta
     inp = f.get("input", {})
     if not isinstance(inp, dict) or "mean_elements" not in inp:
         return oracle(core.Ctx(ID, "quick", 0), False)
     with _quiet():
-        orb, d0 = make(inp["mean_elements"], inp["form"], inp["frame"], inp["propagator"])
-        res = [float(v) for v in orb.propagate(timedelta(seconds=inp["dt"]))]
-        out.count(key="replay")
-        mu = float(orb.frame.center.body.mu)
-        c0 = [float(v) for v in orb.copy(form="cartesian")]
-        if not finite(res):
-            out.fail(nonfinite_family(inp["propagator"], mean_of(orb), mu, inp["dt"]), "non-finite propagation result", inp, observed=res)
-        elif inp["propagator"] == "Kepler":
-            ref = universal_kepler(mu, c0[:3], c0[3:], inp["dt"])
-            if not rel_err(res, ref) <= 1e-5:
-                out.fail(f.get("family", "kepler-universal-variable"), "differs from the universal-variable solution", inp, observed=res, expected=ref)
+        (kepler_case if inp["propagator"] == "Kepler" else j2_case)(out, inp)
     return out
